@@ -181,7 +181,7 @@ func GenHandshake(r *v.Rand) *handshake.Handshake {
 // ---------------------------------------------------------------- codecs
 
 func msgCodec(name string, id int, ctx []int, fresh func() handshake.Message,
-	gen func(r *v.Rand) handshake.Message, corpus [][]byte,
+	gen func(r *v.Rand) handshake.Message, corpus [][]byte, corpusValid ...[]byte,
 ) *v.Codec {
 	dump := func(m handshake.Message) v.Dump {
 		d := v.Dump{}
@@ -191,7 +191,7 @@ func msgCodec(name string, id int, ctx []int, fresh func() handshake.Message,
 	}
 
 	return &v.Codec{
-		Name: name, ID: id, Ctx: ctx, Corpus: corpus, Small: true,
+		Name: name, ID: id, Ctx: ctx, Corpus: corpus, CorpusValid: corpusValid, Small: true,
 		Decode: func(in []byte) (*v.Decoded, error) {
 			m := fresh()
 			if err := m.Unmarshal(in); err != nil {
@@ -282,7 +282,11 @@ func Codecs() []*v.Codec {
 				}
 
 				return GenClientKeyExchange(r, kx)
-			}, corpus))
+			}, corpus, map[int][][]byte{
+				2: {{0, 1, 9}},                         // identity "\x09"
+				4: {{1, 170}},                          // one-byte public key
+				6: {{0, 1, 9, 1, 170}, {0, 0, 1, 170}}, // identity + key, empty identity + key
+			}[kx]...))
 	}
 	out = append(out, msgCodec("certificate_verify", 14, nil,
 		func() handshake.Message { return &handshake.MessageCertificateVerify{} },
